@@ -104,11 +104,11 @@ theorem renderArg_head (q : Bool) (a : Str) :
   · rename_i hcond
     have hcu : canUnquote a = true := by
       cases hq : canUnquote a <;> simp [hq] at hcond ⊢
-    obtain ⟨hne, hall, hq, heq⟩ := (canUnquote_iff a).mp hcu
+    obtain ⟨hne, _, hfirst, _, hq, heq⟩ := (canUnquote_iff a).mp hcu
     cases a with
     | nil => exact absurd rfl hne
     | cons c t =>
-      obtain ⟨hws, hh⟩ := hall c (by simp)
+      have hws : isWs c = false := hfirst c rfl
       obtain ⟨w1, w2, w3, w4⟩ := isWs_false_ne hws
       rw [escape_cons]
       by_cases h1 : c = '\\'
